@@ -1,6 +1,9 @@
 """C07 — Matching is an optimal one-to-one assignment that covers every geometry once."""
+import collections.abc
 import contextlib
+import copy
 import itertools
+import json
 from fractions import Fraction
 
 import numpy as np
@@ -8,6 +11,9 @@ import numpy as np
 from ..core import Op, jkey
 from ..rat import rat, frac
 from .. import gen_geom
+from .. import history
+from .. import c07_oracle as oracle
+from .. import c07_fresh
 
 PROPERTY = "C07"
 LEAN_MODULE = "Proofs.C07"
@@ -20,7 +26,12 @@ THEOREMS = [_T + n for n in [
     "C07_holds_iff", "C07_model_holds",
     # review: optimality by certificate (any size), every valid assignment, the matrix-fill loop, geometry level
     "C07_weak_duality", "C07_cert_best", "C07_optimal_cert_iff", "C07_optimal_by_cert", "C07_holds_by_cert",
-    "C07_shape_any_valid", "C07_length", "C07_sortEntries_perm", "C07_matrix_is_affinity", "C07_geometries"]]
+    "C07_shape_any_valid", "C07_length", "C07_sortEntries_perm", "C07_matrix_is_affinity", "C07_geometries",
+    # follow-up (histories and construction paths): the call protocol, a whole call from the coordinates, history /
+    # memoisation semantics, judging against an independent matrix with a tolerance
+    "C07_bind_positional_eq_keyword", "C07_match_call_styles", "C07_call_spec", "C07_history_step",
+    "C07_memo_full_key_sound", "C07_memo_partial_key_unsound", "C07_stale_buffer_history", "C07_optimal_perturb",
+    "C07_holds_ind", "C07_holds_ind_cert"]]
 LEVEL_TEXT = ("Lean theorems over the model of match_geometries (matrix-fill loop, _select_matches, emission; compute_affinity and "
               "scipy's assignment are parameters, the latter under the explicit ValidAssignment hypothesis): every source and target "
               "index occurs exactly once, pairs only with positive affinity, reported affinity = affinity of that pair of geometries, "
@@ -30,39 +41,80 @@ LEVEL_TEXT = ("Lean theorems over the model of match_geometries (matrix-fill loo
               "(brute force or certificate: C07_holds_by_cert) is proved equivalent to the property, so its evaluation on every real "
               "output of match_geometries means the property (optimality within 2^-40, exact on dyadic matrices). For every shape "
               "(n, m) in {0..3}^2 and every answer scipy's contract allows, match_geometries is traced on symbolic affinities and "
-              "proved equal to the model for all rational entries.")
+              "proved equal to the model for all rational entries. Follow-up: a whole call is modelled from the coordinates and the "
+              "buffers for every pair with a closed-form affinity (matchCall over the C06 dispatcher on exact rectangles; "
+              "C07_call_spec: never raises for non-negative buffers, all clauses for the buffers of *this* call), Python's binding "
+              "of positional / keyword / omitted arguments to the signature is modelled (C07_bind_positional_eq_keyword, "
+              "C07_match_call_styles; the live signatures are re-extracted and discharged against the table on every run), histories "
+              "are answered call by call (C07_history_step) and an implementation that memoises an intermediate result agrees with "
+              "the pure model on every history exactly when its key determines the result (C07_memo_full_key_sound / "
+              "_partial_key_unsound, instance C07_stale_buffer_history); the verdict against the *independent* affinity matrix with "
+              "a per-entry tolerance is given its meaning by C07_holds_ind (via C07_optimal_perturb).")
 LEVEL_NOTE = ("Unmodelled: the Hungarian/LAPJV algorithm of scipy.optimize.linear_sum_assignment (its answer is a parameter; "
               "ValidAssignment and optimality are checked on every answer against the verified brute force up to 5x5 quick / 7x7 "
-              "thorough and against a Lean-checked duality certificate beyond); compute_affinity (C06) supplies the matrix; binary64 "
-              "summation inside scipy (tolerance 2^-40). Beyond the symbolic ties at fixed small shapes the model is tied to the code by "
-              "generator-bounded correspondence (real geometries, stubbed-affinity matrices, stubbed solver answers; exhaustive small "
-              "scopes). The symbolic ties replace numpy's zeros/array, float, compute_affinity and linear_sum_assignment inside the "
-              "traced module by stubs.")
+              "thorough and against a Lean-checked duality certificate beyond); binary64 summation inside scipy (tolerance 2^-40). "
+              "The affinity matrix is stated independently of the code under test: by the Lean closed form for TimeStamp / "
+              "TimeInterval / BoundingBox pairs and time geometries against polygons (tolerance 2^-40 per entry), by GEOS called by "
+              "the harness on shapes built from the coordinates for polygons in the area branch (2^-40) and for the point / line "
+              "types, which are buffered by the recipe of the C11 model (scale by 1/buffer, buffer 1 with round caps and mitre "
+              "joins, scale back, clip; tolerance 2^-20: the exact outline of a GEOS buffer is not pinned by C07). The library's "
+              "compute_affinity is a monitored contract (every entry compared with the independent one), not the oracle; the "
+              "bit-exact comparison of reported affinities still uses it. Histories are generator-bounded: sequences of 2-4 calls "
+              "over neighbours of a call (other buffers, buffers omitted, exchanged lists, a moved / added geometry, reused, "
+              "assigned-to and copied objects, lists edited in place, lazily interleaved generators), plus a pristine-process "
+              "probe (a forked server that imported the library and never called it) as purity monitor: every 9th call must give "
+              "the same answer there; a failing call that answers differently there is turned into a short history that "
+              "reproduces in a fresh process. State that hinges on object identities (id-keyed caches) is detected but its "
+              "replays are only deterministic for the reuse-by-assignment histories. Beyond the symbolic ties at fixed small "
+              "shapes the model is tied to the code by generator-bounded correspondence (real geometries, stubbed-affinity "
+              "matrices, stubbed solver answers; exhaustive small scopes). The symbolic ties replace numpy's zeros/array, float, "
+              "compute_affinity and linear_sum_assignment inside the traced module by stubs.")
 TECHNIQUE = ("Lean 4 proof over model with the solver as a parameter; verified brute-force optimum and Lean-checked LP-duality "
-             "certificates as run-time monitors; symbolic-trace equality obligations at fixed shapes; exhaustive small-scope and "
-             "random correspondence")
+             "certificates as run-time monitors; symbolic-trace equality obligations at fixed shapes; signature tables regenerated "
+             "from the live functions; an affinity oracle independent of the code under test (Lean closed forms, GEOS on the "
+             "coordinates); exhaustive small-scope and random correspondence over inputs, construction / call styles and "
+             "histories; pristine-process purity probe")
 RULE = ("lists of 0-5 (thorough 0-7) geometries on tie-rich grids (near-miss instants, slivers, zero-width boxes, aliased lists), "
-        "long lists up to 10 (16), exhaustive lists over a small pool, random geometries of all types, exhaustive / random affinity "
-        "matrices (up to 12x12, thorough 25x25, tiny entries) through the real match_geometries with compute_affinity stubbed, and "
-        "with the solver's answer stubbed as well; non-trivial = at least one source and one target; distinct = distinct "
-        "(operation, input)")
+        "long lists up to 10 (16) and two (eight) lists of >= 1024 pairs, exhaustive lists over a small pool, random geometries of all "
+        "types, all 81 ordered type pairs x 5 buffer settings, every construction / call style (positional, keyword in any order, "
+        "buffers omitted; float / int / numpy scalars; list / tuple / Sequence / object array; constructor / dict / JSON / copies / "
+        "tuples / ints / numpy coordinates; shared objects), tolerance-sized offsets around `affinity > 0` at magnitudes 1 and 1e6 "
+        "and every point of the 10 ms lattice, exhaustive / random affinity matrices (up to 12x12, thorough 25x25, entries down to "
+        "1e-12, alternatives 1e-12 apart, shapes 17x17, 33x32, 3x400, 2x600, 1030x1, 1x1030, 257x1) through the real "
+        "match_geometries with compute_affinity stubbed, and with the solver's answer stubbed as well; histories: 110 (900) "
+        "sequences of 2-4 calls of match_geometries (fresh / reused / assigned-to / copied objects, in-place list edits, poisoned "
+        "results, results re-read after later calls, arguments snapshotted), 50 (400) lazily interleaved pairs / triples, "
+        "sequences of stubbed calls of one shape, every 9th call repeated in a pristine process; non-trivial = at least one "
+        "source and one target (histories: a step answered); distinct = distinct (operation, input)")
 TRUSTED = ["scipy.optimize.linear_sum_assignment (answer checked per case: ValidAssignment, optimal within tolerance)",
-           "compute_affinity as the supplier of the matrix (property C06)",
+           "GEOS (shapely) called by the harness on shapes built from the coordinates: area, intersection area, bounds, and buffer "
+           "with round caps / mitre joins for the point / line types (harness/c07_oracle.py; the recipe is the C11 model's)",
+           "the library's compute_affinity only as a monitored contract: every entry is compared with the independent affinity "
+           "(tolerance 2^-40, 2^-20 where a GEOS buffer is involved); MAX_FREQUENCY = 5 000 000 (table obligation of C03)",
            "the stubs replacing compute_affinity (a table lookup) and linear_sum_assignment (a given answer) in the matrix / solver "
            "operations, and numpy zeros/array + float in the symbolic traces (object arrays holding symbolic numbers)",
-           "nothing about the certificate generator (exact Hungarian method in the harness): Lean checks every certificate"]
+           "the pristine-process probe (os.fork of a server that imported the library): only says whether the same call gives the "
+           "same answer in a fresh process, never what the answer should be",
+           "nothing about the certificate generator (exact rectangular Hungarian method in the harness): Lean checks every certificate"]
 ASSUMPTIONS = ["scipy's answer is a valid assignment (monitored on every case)",
                "optimality is checked up to 2^-40 on real geometries (scipy sums binary64 values, the model exact rationals), "
-               "exactly on dyadic matrices",
-               "ordered-field semantics for the symbolic ties (no rounding)"]
+               "exactly on dyadic matrices; against the independent matrix up to min(n, m) tau + 2^-40 (C07_holds_ind)",
+               "ordered-field semantics for the symbolic ties (no rounding)",
+               "buffers are non-negative (negative buffers are modelled - matchCall raises exactly when a buffered type is "
+               "reached - but outside the property's quantifier and not generated)"]
 NOT_COMPARED = ["order of the yielded matches (compared as a sorted multiset; the symbolic ties compare sorted lists, "
                 "C07_sortEntries_perm)",
                 "tie-breaking among equally good assignments (an output that differs from the model's only by the "
                 "solver's choice among optimal assignments is accepted when it satisfies `holds` and equals the model "
-                "run on its own pairs)",
+                "run on its own pairs; inside a history such a difference is a broken correspondence, not a violation)",
                 "behaviour when the solver's answer violates scipy's contract (repeated row, index out of range): modelled "
                 "(LoopErr), exercised, agreement only tallied",
-                "types of the yielded indices (int vs numpy integer) and the sign of a zero affinity"]
+                "types of the yielded indices (int vs numpy integer) and the sign of a zero affinity",
+                "the exact outline of GEOS's buffer of a point / line (entries involving one are compared with 2^-20, not 2^-40)",
+                "TypeErrors of malformed calls (too many positional arguments, a name given twice, a missing list): modelled "
+                "(bindArgs, C07_match_call_styles), not run against the code - the property says nothing about them",
+                "numpy.float32 buffers and coordinates are only used where binary32 holds the value exactly; bool buffers, "
+                "geometries loaded from AOEF files and generators (no len) as lists are not exercised"]
 
 TOL = Fraction(1, 2 ** 40)
 _CTX = None
@@ -112,28 +164,214 @@ def _geoms(inp):
     return src, [gen_geom.to_data(g) for g in inp["target"]]
 
 
-def _impl_match(inp):
+# ---- construction and passing styles (HISTORIES.md section 2).  inp["style"] = {"call", "num", "cont", "geom", "share"}
+CALL_STYLES = ("kw", "pos", "pos3", "kw_rev", "kw_mixed", "default", "default_fb", "default_tb")
+NUM_STYLES = ("float", "int", "np64", "np32", "npint")
+CONT_STYLES = ("list", "tuple", "seq", "nparr")
+GEOM_STYLES = ("validate", "ctor", "dict", "json", "copy", "deepcopy", "tuples", "ints", "npcoords")
+
+
+class _Seq(collections.abc.Sequence):
+    """a Sequence that is neither a list nor a tuple"""
+
+    def __init__(self, xs):
+        self._xs = list(xs)
+
+    def __len__(self):
+        return len(self._xs)
+
+    def __getitem__(self, i):
+        return self._xs[i]
+
+
+def _num(q, how):
+    v = float(frac(q))
+    if how == "int" and v == int(v):
+        return int(v)
+    if how == "np64":
+        return np.float64(v)
+    if how == "np32" and float(np.float32(v)) == v:
+        return np.float32(v)
+    if how == "npint" and v == int(v):
+        return np.int64(int(v))
+    return v
+
+
+def _map_leaves(c, fn):
+    return [_map_leaves(x, fn) for x in c] if isinstance(c, list) else fn(c)
+
+
+def _tuplify(c):
+    return tuple(_tuplify(x) for x in c) if isinstance(c, list) else c
+
+
+def _geom_obj(gj, how=None):
+    """a live geometry for the JSON geometry, by one of several equivalent construction paths"""
+    if how in (None, "validate"):
+        return gen_geom.to_data(gj)
+    from soundevent import data
+    cls = getattr(data, gj["type"])
+    c = gen_geom.coords_float(gj)
+    if how == "ctor":
+        return cls(coordinates=c)
+    if how == "dict":
+        return cls.model_validate({"type": gj["type"], "coordinates": c})
+    if how == "json":
+        return cls.model_validate_json(json.dumps({"type": gj["type"], "coordinates": c}))
+    if how == "copy":
+        return gen_geom.to_data(gj).model_copy()
+    if how == "deepcopy":
+        return copy.deepcopy(gen_geom.to_data(gj))
+    if how == "tuples":
+        return cls(coordinates=_tuplify(c))
+    if how == "ints":
+        return cls(coordinates=_map_leaves(c, lambda x: int(x) if x == int(x) else x) if isinstance(c, list)
+                   else (int(c) if c == int(c) else c))
+    if how == "npcoords":
+        return cls(coordinates=_map_leaves(c, np.float64) if isinstance(c, list) else np.float64(c))
+    return gen_geom.to_data(gj)
+
+
+def _container(xs, how):
+    if how == "tuple":
+        return tuple(xs)
+    if how == "seq":
+        return _Seq(xs)
+    if how == "nparr":
+        arr = np.empty(len(xs), dtype=object)
+        for i, x in enumerate(xs):
+            arr[i] = x
+        return arr
+    return list(xs)
+
+
+def _live_args(inp, pool=None):
+    """the live arguments of a call: lists of geometry objects, the two buffers, how to pass them"""
+    st = inp.get("style") or {}
+    gs = st.get("geom")
+    pool = {} if (pool is None and st.get("share")) else pool
+
+    def obj(g):
+        if pool is None:
+            return _geom_obj(g, gs)
+        k = jkey(g)
+        if k not in pool:
+            pool[k] = _geom_obj(g, gs)
+        return pool[k]
+    src = _container([obj(g) for g in inp["source"]], st.get("cont"))
+    tgt = src if inp.get("alias") else _container([obj(g) for g in inp["target"]], st.get("cont"))
+    return {"src": src, "tgt": tgt, "tb": _num(inp["tb"], st.get("num")), "fb": _num(inp["fb"], st.get("num")),
+            "call": _effective_call(inp), "json": [inp["source"], inp["target"], bool(inp.get("alias"))]}
+
+
+def _effective_call(inp):
+    """the call style, falling back to keywords where a default cannot be relied on"""
+    call = (inp.get("style") or {}).get("call") or "kw"
+    tb_default, fb_default = frac(inp["tb"]) == Fraction(1, 100), frac(inp["fb"]) == 100
+    if call == "default" and not (tb_default and fb_default):
+        return "kw"
+    if call == "default_fb" and not fb_default:
+        return "kw"
+    if call == "default_tb" and not tb_default:
+        return "kw"
+    return call
+
+
+def _pos_kw(call, src, tgt, tb, fb):
+    """positional and keyword arguments of `match_geometries` for a call style"""
+    if call == "pos":
+        return [src, tgt, tb, fb], {}
+    if call == "pos3":
+        return [src, tgt, tb], {"freq_buffer": fb}
+    if call == "kw_rev":
+        return [], {"freq_buffer": fb, "target": tgt, "time_buffer": tb, "source": src}
+    if call == "kw_mixed":
+        return [src, tgt], {"freq_buffer": fb, "time_buffer": tb}
+    if call == "default":
+        return [src, tgt], {}
+    if call == "default_fb":
+        return [src, tgt, tb], {}
+    if call == "default_tb":
+        return [src, tgt], {"freq_buffer": fb}
+    return [src, tgt], {"time_buffer": tb, "freq_buffer": fb}
+
+
+def _invoke(args):
     from soundevent.evaluation import match_geometries
-    src, tgt = _geoms(inp)
-    out = list(match_geometries(src, tgt, time_buffer=_f(inp["tb"]), freq_buffer=_f(inp["fb"])))
-    return {"val": _canon(out)}
+    pos, kw = _pos_kw(args["call"], args["src"], args["tgt"], args["tb"], args["fb"])
+    return match_geometries(*pos, **kw)
+
+
+def _impl_match(inp):
+    return {"val": _canon(list(_invoke(_live_args(inp))))}
+
+
+def _bound_call_msg(ctx, inp):
+    """the call as written (positional / keyword / omitted arguments) bound by the Lean model of the call
+    protocol (`MatchCall.callOf`, theorem C07_match_call_styles) is the call the case means"""
+    call = _effective_call(inp)
+    src, tgt = {"geoms": inp["source"]}, {"geoms": inp["target"]}
+    pos, kw = _pos_kw(call, src, tgt, {"num": inp["tb"]}, {"num": inp["fb"]})
+    b = ctx.model("bind_call", {"pos": pos, "kw": [[k, v] for k, v in kw.items()]})
+    if "raise" in b:
+        return f"the model of the call protocol rejects the call style {call}"
+    same = (frac(b["tb"]) == frac(inp["tb"]) and frac(b["fb"]) == frac(inp["fb"])
+            and jkey(_norm_geoms(b["source"])) == jkey(_norm_geoms(inp["source"]))
+            and jkey(_norm_geoms(b["target"])) == jkey(_norm_geoms(inp["target"])))
+    return None if same else f"the model binds the call style {call} to another call: {jkey(b)[:200]}"
+
+
+def _norm_geoms(gs):
+    return [{"type": g["type"], "coordinates": _map_leaves(g["coordinates"], lambda x: rat(frac(x)))
+             if isinstance(g["coordinates"], list) else rat(frac(g["coordinates"]))} for g in gs]
+
+
+def _core_key(inp):
+    return jkey([inp["source"], inp["target"], inp["tb"], inp["fb"], bool(inp.get("alias"))])
 
 
 def _matrix_of(inp):
-    """affinity matrix by the real compute_affinity, and scipy's answer on it (cached per input)"""
-    k = jkey(inp)
+    """affinity matrix by the real compute_affinity, and scipy's answer on it (cached per input).  The library's
+    compute_affinity is a *monitored contract* here, not the oracle: `_holds_independent` compares every entry with
+    the affinity stated independently of the code (harness/c07_oracle.py)"""
+    k = _core_key(inp)
+    if k in _LIB_OVERRIDE:
+        return _LIB_OVERRIDE[k]
     if k not in _CACHE:
         if len(_CACHE) > 4096:
             _CACHE.clear()
-        from soundevent.evaluation import compute_affinity
-        src, tgt = _geoms(inp)
-        m = np.zeros((len(src), len(tgt)))
-        for i, a in enumerate(src):
-            for j, b in enumerate(tgt):
-                m[i, j] = compute_affinity(a, b, time_buffer=_f(inp["tb"]), freq_buffer=_f(inp["fb"]))
-        _CACHE[k] = {"n": len(src), "m": len(tgt), "matrix": [[rat(float(x)) for x in row] for row in m],
-                     "assigned": _solve(m)}
+        _CACHE[k] = _observe_lib(inp)
     return _CACHE[k]
+
+
+_LIB_OVERRIDE = {}      # the library's matrix as observed in a fresh process (pristine-process probe), while re-judging
+
+
+def _observe_lib(inp):
+    from soundevent.evaluation import compute_affinity
+    src, tgt = _geoms(inp)
+    m = np.zeros((len(src), len(tgt)))
+    positional = (len(inp["source"]) + len(inp["target"])) % 2 == 1      # the public function is also called positionally
+    for i, a in enumerate(src):
+        for j, b in enumerate(tgt):
+            m[i, j] = (compute_affinity(a, b, _f(inp["tb"]), _f(inp["fb"])) if positional else
+                       compute_affinity(a, b, time_buffer=_f(inp["tb"]), freq_buffer=_f(inp["fb"])))
+    return {"n": len(src), "m": len(tgt), "matrix": [[rat(float(x)) for x in row] for row in m], "assigned": _solve(m)}
+
+
+def _observe(inp):
+    """one call as the pristine-process probe observes it: the output of match_geometries, then the library's own
+    affinity matrix for the same arguments"""
+    from ..core import canon_exc
+    try:
+        out = _impl_match(inp)
+    except Exception as e:  # noqa: BLE001 - an exception of the real code is an observation
+        out = canon_exc(e)
+    try:
+        out["lib"] = _observe_lib(inp)
+    except Exception as e:  # noqa: BLE001
+        out["lib"] = canon_exc(e)
+    return out
 
 
 def _geoms_args(inp):
@@ -156,8 +394,8 @@ def _impl_matrix(inp):
     mat = [[_f(x) for x in row] for row in inp["matrix"]]
     src, tgt, ids_s, ids_t = _stub_geoms(inp["n"], inp["m"])
 
-    def stub(g1, g2, *a, **kw):
-        return mat[ids_s[id(g1)]][ids_t[id(g2)]]
+    def stub(geometry1=None, geometry2=None, *a, **kw):
+        return mat[ids_s[id(geometry1)]][ids_t[id(geometry2)]]
     with _patched(compute_affinity=stub) as M:
         out = list(M.match_geometries(src, tgt))
     return {"val": _canon(out)}
@@ -207,28 +445,31 @@ def _stub_geoms(n, m):
 
 # ---------------------------------------------------------------- optimality certificates (any size)
 def _certificate(rows, n, m):
-    """Untrusted helper: exact (Fraction) Hungarian method on the zero-padded square matrix.  Returns row
+    """Untrusted helper: exact (Fraction) Hungarian method, rectangular (O(min(n,m)^2 max(n,m))).  Returns row
     potentials u, column potentials v (all >= 0, aff[i][j] <= u[i] + v[j]) and a witness pairing whose value is
     sum(u) + sum(v).  Lean *checks* the certificate (`certOk`, theorem C07_cert_best); nothing here is trusted."""
-    N = max(n, m)
-    if N == 0 or n == 0 or m == 0:
+    if n == 0 or m == 0:
         return [Fraction(0)] * n, [Fraction(0)] * m, []
-    w = [[(max(rows[i][j], Fraction(0)) if i < n and j < m else Fraction(0)) for j in range(N)] for i in range(N)]
-    u = [Fraction(0)] * (N + 1)
-    v = [Fraction(0)] * (N + 1)
-    p = [0] * (N + 1)
-    way = [0] * (N + 1)
-    for i in range(1, N + 1):
+    if n > m:
+        t = [[rows[i][j] for i in range(n)] for j in range(m)]
+        v, u, w = _certificate(t, m, n)
+        return u, v, sorted([b, a] for a, b in w)
+    w = [[max(rows[i][j], Fraction(0)) for j in range(m)] for i in range(n)]
+    u = [Fraction(0)] * (n + 1)
+    v = [Fraction(0)] * (m + 1)
+    p = [0] * (m + 1)
+    way = [0] * (m + 1)
+    for i in range(1, n + 1):
         p[0] = i
         j0 = 0
-        minv = [None] * (N + 1)
-        used = [False] * (N + 1)
+        minv = [None] * (m + 1)
+        used = [False] * (m + 1)
         while True:
             used[j0] = True
             i0 = p[j0]
             delta = None
             j1 = None
-            for j in range(1, N + 1):
+            for j in range(1, m + 1):
                 if not used[j]:
                     cur = -w[i0 - 1][j - 1] - u[i0] - v[j]
                     if minv[j] is None or cur < minv[j]:
@@ -237,7 +478,7 @@ def _certificate(rows, n, m):
                     if delta is None or minv[j] < delta:
                         delta = minv[j]
                         j1 = j
-            for j in range(N + 1):
+            for j in range(m + 1):
                 if used[j]:
                     u[p[j]] += delta
                     v[j] -= delta
@@ -252,15 +493,14 @@ def _certificate(rows, n, m):
             j0 = j1
             if j0 == 0:
                 break
-    big_u = [-u[i] for i in range(1, N + 1)]
-    big_v = [-v[j] for j in range(1, N + 1)]
-    c = min(big_v)
+    big_u = [-u[i] for i in range(1, n + 1)]
+    big_v = [-v[j] for j in range(1, m + 1)]
+    c = min(big_v)          # 0 when a column stays free (n < m); the usual shift for square matrices
     big_u = [x + c for x in big_u]
     big_v = [x - c for x in big_v]
-    witness = [[p[j] - 1, j - 1] for j in range(1, N + 1)
-               if p[j] - 1 < n and j - 1 < m and rows[p[j] - 1][j - 1] > 0]
+    witness = [[p[j] - 1, j - 1] for j in range(1, m + 1) if p[j] != 0 and rows[p[j] - 1][j - 1] > 0]
     witness.sort()
-    return big_u[:n], big_v[:m], witness
+    return big_u, big_v, witness
 
 
 def _cert_args(a):
@@ -287,7 +527,8 @@ def _solver_stub(n, m, asg, seen=None):
     """stands for linear_sum_assignment: returns the given pairs whatever the matrix.  A rewrite may hand the
     solver the transposed matrix (and swap the answer back): the orientation is read off the shape, for square
     matrices off a probe made by `_solver_selftest`; the answer is then given for the transposed problem."""
-    def solver(cost, *a, **kw):
+    def solver(cost_matrix=None, maximize=False, *a, **kw):
+        cost = cost_matrix
         shp = tuple(np.shape(cost))
         if seen is not None:
             seen.append(cost)
@@ -310,8 +551,8 @@ def _impl_solver(inp):
     mat = [[_f(x) for x in row] for row in inp["matrix"]]
     src, tgt, ids_s, ids_t = _stub_geoms(inp["n"], inp["m"])
 
-    def aff(g1, g2, *a, **kw):
-        return mat[ids_s[id(g1)]][ids_t[id(g2)]]
+    def aff(geometry1=None, geometry2=None, *a, **kw):
+        return mat[ids_s[id(geometry1)]][ids_t[id(geometry2)]]
     solver = _solver_stub(inp["n"], inp["m"], inp["assigned"], inp.get("_seen"))
     with _patched(compute_affinity=aff, linear_sum_assignment=solver) as M:
         out = list(M.match_geometries(src, tgt))
@@ -419,6 +660,316 @@ def _mk_holds(args_of, tol):
     return holds
 
 
+# ---------------------------------------------------------------- the independent affinity matrix (oracle independence)
+def _snap(rows, out, tau):
+    """Python twin of `MatchCall.snap` (only to produce a certificate; Lean recomputes the snapped matrix)"""
+    b = [list(r) for r in rows]
+    seen = set()
+    for e in out:
+        if e[0] is None or e[1] is None or (e[0], e[1]) in seen:
+            continue
+        seen.add((e[0], e[1]))
+        if e[0] < len(b) and e[1] < len(b[e[0]]) and abs(frac(b[e[0]][e[1]]) - frac(e[2])) <= tau:
+            b[e[0]][e[1]] = rat(frac(e[2]))
+    return b
+
+
+def _holds_independent(ctx, inp, io):
+    """the output of match_geometries, and the library's compute_affinity, against the affinity of every pair
+    stated independently of the code under test (Lean closed forms / GEOS called by the harness on the
+    coordinates): theorem C07_holds_ind says what an accepted verdict means"""
+    if "raise" in io:
+        return None
+    ind = oracle.matrix(ctx.model, inp["source"], inp["target"], inp["tb"], inp["fb"])
+    if "raise" in ind:
+        ctx.tally("independent matrix: the call raises in the model (outside the quantifier; not judged)")
+        return None
+    ctx.tally("independent matrix entries: closed form (Lean)", ind["closed"])
+    ctx.tally("independent matrix entries: GEOS on the coordinates", ind["geos"])
+    tau = ind["tau"]
+    n, m = len(inp["source"]), len(inp["target"])
+    lib = _matrix_of(inp)
+    for i in range(n):
+        for j in range(m):
+            if abs(frac(lib["matrix"][i][j]) - frac(ind["matrix"][i][j])) > tau:
+                return ("C07 fails against the independent affinities: "
+                        f"compute_affinity(source[{i}], target[{j}], time_buffer={inp['tb']}, freq_buffer={inp['fb']}) = "
+                        f"{float(frac(lib['matrix'][i][j]))!r} but the affinity of that pair from the coordinates and the "
+                        f"buffers of this call is {float(frac(ind['matrix'][i][j]))!r}")
+    ctx.tally("contract:compute_affinity = independent affinity (per matrix)")
+    tol = tau * min(n, m) + TOL
+    args = {"n": n, "m": m, "matrix": ind["matrix"], "out": io["val"], "tau": rat(tau), "tol": rat(tol)}
+    lim = _brute_limit(ctx)
+    big = n > lim or m > lim
+    if big:
+        b = _snap(ind["matrix"], io["val"], tau)
+        u, v, w = _certificate([[frac(x) for x in row] for row in b], n, m)
+        args.update(u=[rat(x) for x in u], v=[rat(x) for x in v], witness=w)
+    r = ctx.model("holds_ind", args)
+    if r["all"]:
+        return None
+    bad = [k for k in ("cover_src", "cover_tgt", "within", "entries", "optimal") if not r[k]]
+    if big and not r["cert"] and bad in ([], ["optimal"]):
+        ctx.fail("obligation", "optimality certificate", inp=inp,
+                 detail="the harness could not produce a certificate Lean accepts (independent matrix)")
+        return None
+    msg = {"cover_src": "a source index is missing or repeated", "cover_tgt": "a target index is missing or repeated",
+           "within": "a reported affinity is not the affinity of that pair computed from the coordinates and the "
+                     "buffers of this call",
+           "entries": "a pair with non-positive affinity or a non-zero one-sided match",
+           "optimal": f"sum of reported affinities {r['total']} below the optimum {r['best']} of the independent matrix"}
+    return "C07 fails against the independent affinities: " + "; ".join(msg[k] for k in bad)
+
+
+def _mk_judge_match():
+    lib = _mk_holds(_matrix_of, TOL)
+
+    def judge(ctx, inp, io):
+        msg = lib(ctx, inp, io)
+        if msg:
+            return msg
+        msg = _holds_independent(ctx, inp, io)
+        if msg:
+            return msg
+        if inp.get("style"):
+            st = inp["style"]
+            for k in ("call", "num", "cont", "geom"):
+                if st.get(k):
+                    ctx.tally(f"style:{k}={_effective_call(inp) if k == 'call' else st[k]}")
+            return _bound_call_msg(ctx, inp)
+        return None
+    return judge
+
+
+_judge_match = _mk_judge_match()
+
+
+# ---------------------------------------------------------------- the pristine-process probe (harness/c07_fresh.py)
+_FRESH = [None]
+_RAW = {}
+_RINGS = {"match": collections.deque(maxlen=20), "match_matrix": collections.deque(maxlen=20)}
+_PROBE = {"n": 0, "explained": 0}
+
+
+def _fresh():
+    if _FRESH[0] is None:
+        import os
+        _FRESH[0] = c07_fresh.Fresh(os.environ.get("SOUNDEVENT_SRC", "/repo/src"))
+    return _FRESH[0]
+
+
+def _close_fresh():
+    if _FRESH[0] is not None:
+        _FRESH[0].close()
+        _FRESH[0] = None
+
+
+import atexit  # noqa: E402
+atexit.register(_close_fresh)
+
+
+def _plain(o):
+    if not isinstance(o, dict):
+        return o
+    out = {k: v for k, v in o.items() if k != "trace"}
+    if isinstance(out.get("lib"), dict) and "matrix" in out["lib"]:
+        out["lib"] = {k: out["lib"].get(k) for k in ("n", "m", "matrix", "assigned")}
+    return out
+
+
+def _neighbours(base, x):
+    """calls likely to share state with `x`: the same geometries with other buffers / the same shape with other entries"""
+    if base == "match":
+        out = []
+        for fb in ("100", "500", "1/2", "1", "1000", "10"):
+            if fb != x["fb"]:
+                out.append({**x, "fb": fb})
+        for tb in ("1/100", "1/4", "1/2", "1"):
+            if tb != x["tb"]:
+                out.append({**x, "tb": tb})
+        out += [{**x, "tb": "1/2", "fb": "1"}, {**x, "tb": "1/4", "fb": "1/2"}]
+        return [{k: v for k, v in c.items() if k != "style"} for c in out]
+    n, m = x["n"], x["m"]
+    flat = [v for row in x["matrix"] for v in row]
+    outs = [["0"] * (n * m), ["1"] * (n * m), list(reversed(flat)), [("1/2" if v == "0" else "0") for v in flat]]
+    return [dict(x, matrix=[vals[i * m:(i + 1) * m] for i in range(n)]) for vals in outs if vals != flat]
+
+
+def _hist_input(base, prefix, x):
+    seq = [{"inp": r} for r in prefix] + [{"inp": x}]
+    return ("match_history", {"seq": seq}) if base == "match" else ("stub_history", {"base": base, "seq": seq})
+
+
+def _refine(ctx, base, x, io_bad, msg):
+    """A failing call: does it fail on its own?  If a fresh process answers the same call differently the failure
+    depends on what was called before; then look for a short history (a neighbour of the call - the same geometries
+    with other buffers, the same shape with other entries - or one of the recent calls in front of it, finally the
+    whole recent past) that reproduces it in a fresh process and record *that* as the violation: its replay stands
+    on its own.  Returns the message to report for the single call (None when a history was recorded instead)."""
+    F = _fresh()
+    alone = F.run({"seq": [{"inp": x}]}, base=base)
+    if alone is None:
+        return msg
+    here = _plain(dict(io_bad, lib=_matrix_of(x))) if base == "match" else _plain(io_bad)
+    if _plain(alone[0]) == here:
+        return msg
+    ctx.tally("pristine-process probe: failing call answers differently in a fresh process (state-dependent)")
+    if _PROBE["explained"] >= 2:
+        return None              # two reproducing histories are recorded already: the same cause
+    _PROBE["refined"] = _PROBE.get("refined", 0) + 1
+    if _PROBE["refined"] > 8:
+        _DEFERRED.append((base, x, io_bad, msg + " (state-dependent: a fresh process answers this call differently)"))
+        return None
+
+    def attempt(prefix):
+        outs = F.run({"seq": [{"inp": r} for r in prefix] + [{"inp": x}]}, base=base)
+        if outs is None:
+            return "stop"
+        if _plain(outs[-1]) == _plain(alone[0]):
+            return None
+        m2 = _judge_observed(ctx, base, x, outs[-1])
+        if not m2:
+            return None
+        _PROBE["explained"] += 1
+        name, hist = _hist_input(base, prefix, x)
+        ctx.fail("property", name, inp=hist,
+                 impl={"steps": [{kk: v for kk, v in o.items() if kk != "lib"} for o in outs], "notes": []},
+                 detail=f"history step {len(prefix)} ({' -> '.join(['fresh'] * (len(prefix) + 1))}) gives an answer that "
+                        "violates the property: " + m2 +
+                        f" [alone, in a fresh process, the same call returns {jkey(_plain(alone[0]))[:200]}]")
+        return "done"
+    ring = list(_RINGS[base])
+    for r in (_neighbours(base, x) + list(reversed(ring)))[:34]:
+        res = attempt([r])
+        if res == "done":
+            return None
+        if res == "stop":
+            return msg
+    if len(ring) > 1 and attempt(ring) == "done":
+        return None
+    # nothing short reproduces it (e.g. it hinges on object identities): reported at the end of the run only if no
+    # violation with a replay that stands on its own was found
+    _DEFERRED.append((base, x, io_bad, msg + " (state-dependent: a fresh process answers this call differently; no short "
+                                             "history reproduces it, the replay may need the calls made before it)"))
+    return None
+
+
+_DEFERRED = []
+
+
+def _flush_deferred(ctx):
+    if not _DEFERRED:
+        return
+    if any(f.kind == "property" for f in ctx.failures):
+        ctx.note(f"{len(_DEFERRED)} further state-dependent failures of single calls (not reproducible on their own) are "
+                 "explained by the recorded violations")
+    else:
+        for base, x, io, msg in _DEFERRED[:5]:
+            ctx.fail("property", base, inp=x, impl=io, detail=msg)
+    del _DEFERRED[:]
+
+
+def _judge_observed(ctx, base, x, obs):
+    """judge a call as observed in a fresh process (its output and the library's matrix there)"""
+    if base != "match":
+        return history._judge(ctx, _RAW[base], x, obs)[0]
+    k = _core_key(x)
+    out = {kk: v for kk, v in obs.items() if kk != "lib"}
+    if isinstance(obs.get("lib"), dict) and "matrix" in obs["lib"]:
+        _LIB_OVERRIDE[k] = obs["lib"]
+    try:
+        m2, _ = history._judge(ctx, _MATCH_RAW, x, out)
+    finally:
+        _LIB_OVERRIDE.pop(k, None)
+    return m2
+
+
+def _holds_match(ctx, inp, io):
+    msg = _judge_match(ctx, inp, io)
+    if _CTX is None:          # --replay: judge only
+        return msg
+    if msg is None:
+        _PROBE["n"] += 1
+        if _PROBE["n"] % 9 == 0 and "raise" not in io:
+            # purity monitor: the answer must not depend on the calls made earlier in this process
+            alone = _fresh().run({"seq": [{"inp": inp}]})
+            if alone is not None:
+                ctx.tally("pristine-process probe: same answer in a fresh process")
+                if _plain(alone[0]) != _plain(dict(io, lib=_matrix_of(inp))):
+                    ctx.tally("pristine-process probe: same answer in a fresh process", -1)
+                    msg = ("the answer to this call (or the library's affinity matrix for it) depends on the calls made "
+                           f"earlier in this process: a fresh process gives {jkey(_plain(alone[0]))[:300]}")
+    if msg is not None:
+        msg = _refine(ctx, "match", inp, io, msg)
+    _RINGS["match"].append(inp)
+    return msg
+
+
+def _holds_matrix_probed(ctx, inp, io):
+    """`match_matrix` with the probe: the stubbed operation, too, must not depend on earlier calls"""
+    msg = _RAW["match_matrix"].holds(ctx, inp, io)
+    if _CTX is None:
+        return msg
+    if msg is None and inp["n"] * inp["m"] <= 64:
+        _PROBE["n"] += 1
+        if _PROBE["n"] % 67 == 0 and _PROBE.get("matrix_probes", 0) < 500:
+            _PROBE["matrix_probes"] = _PROBE.get("matrix_probes", 0) + 1
+            alone = _fresh().run({"seq": [{"inp": inp}]}, base="match_matrix")
+            if alone is not None:
+                ctx.tally("pristine-process probe: same answer in a fresh process")
+                if _plain(alone[0]) != _plain(io):
+                    ctx.tally("pristine-process probe: same answer in a fresh process", -1)
+                    msg = ("the answer to this call depends on the calls made earlier in this process: a fresh process "
+                           f"gives {jkey(_plain(alone[0]))[:300]}")
+    if msg is not None:
+        msg = _refine(ctx, "match_matrix", inp, io, msg)
+    if inp["n"] * inp["m"] <= 64:
+        _RINGS["match_matrix"].append(inp)
+    return msg
+
+
+def _sig(msg):
+    """the report keeps one replay per (operation, first 60 characters of the message): keep the varying part of a
+    history's message behind a fixed clause so that different operations / reuse trails get the replay slots"""
+    import re
+    return re.sub(r"^((?:history step|call) \d+ (?:\([^)]*\)|of \d+ consumed in turn)): ",
+                  lambda m_: m_.group(1) + " gives an answer that violates the property: ", msg) if msg else msg
+
+
+def _holds_history(raw, opname):
+    def holds(ctx, h, io):
+        return _sig(inner(ctx, h, io))
+
+    def inner(ctx, h, io):
+        msg = raw(ctx, h, io)
+        if msg is None or _CTX is None:
+            return msg
+        _PROBE["confirmed"] = _PROBE.get("confirmed", 0) + 1
+        if _PROBE["confirmed"] > 6:
+            return msg                      # enough failing histories were re-run in a fresh process
+        F = _fresh()
+        again = F.run(h, op=opname)
+        if again is None:
+            return msg                      # the probe is unavailable
+        libs, again = again.get("libs", {}), again.get("out", {})
+        _LIB_OVERRIDE.update(libs)
+        try:
+            m2 = raw(ctx, h, again)
+        finally:
+            for k in libs:
+                _LIB_OVERRIDE.pop(k, None)
+        if m2:
+            return m2 + " [as observed when the history runs in a fresh process]"
+        # the history is fine on its own: what failed here was caused by calls made before it
+        import re
+        k = re.match(r"(?:history step|call) (\d+)", msg)
+        if k and int(k.group(1)) < len(io.get("steps", [])):
+            k = int(k.group(1))
+            return _refine(ctx, h.get("base", "match"), h["seq"][k]["inp"], io["steps"][k], msg)
+        return msg + " (not reproduced when the history runs in a fresh process)"
+    return holds
+
+
 def _nontrivial(inp, out):
     if "val" not in out:
         return False
@@ -429,16 +980,237 @@ def _nontrivial(inp, out):
 
 OPS = {
     "match": Op("match", _impl_match, to_model=_geoms_args, model_op="match_geoms",
-                compare=_mk_compare(_matrix_of), holds=_mk_holds(_matrix_of, TOL), determined=False,
+                compare=_mk_compare(_matrix_of), holds=_holds_match, determined=False,
                 nontrivial=_nontrivial, mode="exact"),
     "match_matrix": Op("match_matrix", _impl_matrix, to_model=_matrix_args, compare=_mk_compare(_matrix_args),
-                       holds=_mk_holds(_matrix_args, Fraction(0)), determined=False, nontrivial=_nontrivial,
+                       holds=_holds_matrix_probed, determined=False, nontrivial=_nontrivial,
                        mode="exact", model_op="match", shrink=True),
     # the solver's answer as a parameter (any answer scipy's documented contract allows, optimal or not):
     # ties `selectMatches` to the code for the whole quantifier of the theorems, independent of scipy's choices
     "match_solver": Op("match_solver", _impl_solver, to_model=_solver_args, compare=_compare_solver, determined=False,
                        nontrivial=_nontrivial, mode="exact", model_op="match"),
 }
+
+
+# ---------------------------------------------------------------- histories (harness/history.py, HISTORIES.md section 1)
+def _h_build(inp):
+    return _live_args(inp)
+
+
+def _h_call(args):
+    return list(_invoke(args))
+
+
+def _h_canon(inp, args, res):
+    return {"val": _canon(res)}
+
+
+def _h_snapshot(args):
+    """content of every argument: geometries (type, coordinates), list lengths, the buffers"""
+    def side(xs):
+        return [gen_geom.from_data(xs[i]) for i in range(len(xs))]
+    return [side(args["src"]), side(args["tgt"]), rat(float(args["tb"])), rat(float(args["fb"]))]
+
+
+H_REUSE = ("pool", "same_lists", "assign", "copy_update", "deep_copy_update", "inplace_list")
+
+
+def _h_modify(args, inp, how):
+    """the live objects of the previous step turned into the arguments of this step: the very same lists with other
+    buffers, the same geometry objects in new lists, geometry objects whose coordinates are assigned to /
+    model_copy(update=...)d, lists edited in place - nothing remembered from the earlier use may survive"""
+    new = _live_args(inp)
+    old_src = [args["src"][i] for i in range(len(args["src"]))]
+    old_tgt = [args["tgt"][i] for i in range(len(args["tgt"]))]
+    osj, otj, oalias = args["json"]
+    if how == "same_lists":
+        if jkey([osj, otj, oalias]) != jkey(new["json"]):
+            return None
+        new["src"], new["tgt"] = args["src"], args["tgt"]
+        return new
+    if how == "pool":
+        pool = {}
+        for g, o in list(zip(osj, old_src)) + list(zip(otj, old_tgt)):
+            pool.setdefault(jkey(g), o)
+        src = [pool.get(jkey(g)) or _geom_obj(g) for g in inp["source"]]
+        new["src"] = src
+        new["tgt"] = src if inp.get("alias") else [pool.get(jkey(g)) or _geom_obj(g) for g in inp["target"]]
+        return new
+    if how == "inplace_list":
+        if not isinstance(args["src"], list) or not isinstance(args["tgt"], list) or oalias or inp.get("alias"):
+            return None
+        args["src"][:] = [new["src"][i] for i in range(len(new["src"]))]
+        args["tgt"][:] = [new["tgt"][i] for i in range(len(new["tgt"]))]
+        new["src"], new["tgt"] = args["src"], args["tgt"]
+        return new
+    if how in ("assign", "copy_update", "deep_copy_update"):
+        if oalias or inp.get("alias"):
+            return None
+
+        def side(old, want):
+            if len(old) != len(want) or any(o.type != w["type"] for o, w in zip(old, want)):
+                return None
+            out = []
+            for o, w in zip(old, want):
+                c = gen_geom.coords_float(w)
+                if how == "assign":
+                    o.coordinates = c
+                    out.append(o)
+                else:
+                    out.append(o.model_copy(update={"coordinates": c}, deep=(how == "deep_copy_update")))
+            return out
+        a, b = side(old_src, inp["source"]), None
+        if a is None:
+            return None
+        b = side(old_tgt, inp["target"])
+        if b is None:
+            if how == "assign":      # the sources were already assigned to: they carry this step's content
+                new["src"] = a
+                return new
+            return None
+        new["src"], new["tgt"] = a, b
+        return new
+    return None
+
+
+def _h_poison(res):
+    """the caller edits the list it built from the matches"""
+    if not res:
+        return False
+    res.reverse()
+    res.append(res[0])
+    return True
+
+
+_BUFFER_CHOICES = [("1/100", "100"), ("1/4", "1/2"), ("1/2", "1"), ("1/2", "1000"), ("1/8", "100"), ("1/100", "500"),
+                   ("1", "100"), ("1/16", "50")]
+
+
+def _h_variants(x, rng):
+    """neighbours of a call: the same geometries with other buffers (written out, or left to the defaults),
+    source and target exchanged, one geometry moved, one geometry more"""
+    out = []
+    for tb, fb in rng.sample(_BUFFER_CHOICES, 4):
+        if (tb, fb) != (x["tb"], x["fb"]):
+            out.append({**x, "tb": tb, "fb": fb})
+    out.append({**x, "tb": "1/100", "fb": "100", "style": {"call": rng.choice(["default", "default_fb", "default_tb"])}})
+    out.append({**x, "style": {"call": rng.choice(["pos", "kw_rev", "pos3"])}})
+    if not x.get("alias"):
+        out.append({**x, "source": x["target"], "target": x["source"]})
+        if x["source"]:
+            i = rng.randrange(len(x["source"]))
+            moved = _shift_geom(x["source"][i], rng.choice([Fraction(1, 4), Fraction(1, 2), 1]))
+            out.append({**x, "source": x["source"][:i] + [moved] + x["source"][i + 1:]})
+        out.append({**x, "target": x["target"] + [_grid_geom(rng)]})
+    return out
+
+
+def _shift_geom(g, d):
+    def sh(c):
+        if isinstance(c, list) and c and not isinstance(c[0], list) and len(c) == 2:
+            return [rat(frac(c[0]) + d), c[1]]
+        return [sh(x) for x in c]
+    ty, c = g["type"], g["coordinates"]
+    if ty == "TimeStamp":
+        return {"type": ty, "coordinates": rat(frac(c) + d)}
+    if ty == "TimeInterval":
+        return {"type": ty, "coordinates": [rat(frac(c[0]) + d), rat(frac(c[1]) + d)]}
+    if ty == "BoundingBox":
+        return {"type": ty, "coordinates": [rat(frac(c[0]) + d), c[1], rat(frac(c[2]) + d), c[3]]}
+    if ty == "Point":
+        return {"type": ty, "coordinates": [rat(frac(c[0]) + d), c[1]]}
+    return {"type": ty, "coordinates": sh(c)}
+
+
+def _impl_interleaved(h):
+    """several calls whose generators are created first and consumed in turn (match_geometries is lazy): nothing
+    one call keeps between its yields may be touched by another"""
+    live = [_live_args(st["inp"]) for st in h["seq"]]
+    gens = [iter(_invoke(a)) for a in live]
+    outs = [[] for _ in gens]
+    done = [False] * len(gens)
+    while not all(done):
+        for k, g in enumerate(gens):
+            if done[k]:
+                continue
+            try:
+                outs[k].append(next(g))
+            except StopIteration:
+                done[k] = True
+    return {"steps": [{"val": _canon(o)} for o in outs]}
+
+
+def _holds_interleaved(ctx, h, io):
+    if "raise" in io:
+        return f"the interleaved calls raised {io['raise']}"
+    for k, (st, out) in enumerate(zip(h["seq"], io["steps"])):
+        msg, _ = history._judge(ctx, _MATCH_RAW, st["inp"], out)
+        if msg:
+            return f"call {k} of {len(h['seq'])} consumed in turn: {msg}"
+    return None
+
+
+def _soft(name, compare):
+    """inside a history a step whose output satisfies the property (`holds`) but differs from the model is a broken
+    correspondence, as it is for the base operation on its own (determined=False) - never a property violation"""
+    def cmp(inp, io, mo):
+        msg = compare(inp, io, mo)
+        if msg and _CTX is not None:
+            _CTX.fail("correspondence", name, inp=inp, impl=io, model=mo, detail=msg + " (inside a history)")
+        return None
+    return cmp
+
+
+# the base operations of the histories: judged step by step without the probe (the probe works on whole histories)
+_MATCH_RAW = Op("match", _impl_match, to_model=_geoms_args, model_op="match_geoms",
+                compare=_soft("match", _mk_compare(_matrix_of)),
+                holds=_judge_match, determined=False, nontrivial=_nontrivial, mode="exact")
+_RAW.update({"match": _MATCH_RAW,
+             "match_matrix": Op("match_matrix", _impl_matrix, to_model=_matrix_args,
+                                compare=_soft("match_matrix", _mk_compare(_matrix_args)),
+                                holds=_mk_holds(_matrix_args, Fraction(0)), determined=False, nontrivial=_nontrivial,
+                                mode="exact", model_op="match"),
+             "match_solver": Op("match_solver", _impl_solver, to_model=_solver_args,
+                                compare=_soft("match_solver", _compare_solver), determined=False,
+                                nontrivial=_nontrivial, mode="exact", model_op="match")})
+
+
+def _observe_op(base, inp):
+    """one call of a base operation as the pristine-process probe observes it"""
+    if base == "match":
+        return _observe(inp)
+    from ..core import canon_exc
+    try:
+        return OPS[base].impl(inp)
+    except Exception as e:  # noqa: BLE001 - an exception of the real code is an observation
+        return canon_exc(e)
+
+
+def _impl_stub_history(h):
+    """consecutive calls of a stubbed operation (arbitrary matrices / solver answers) in one process"""
+    return {"steps": [_observe_op(h["base"], st["inp"]) for st in h["seq"]], "notes": []}
+
+
+def _holds_stub_history(ctx, h, io):
+    if "raise" in io:
+        return f"the history driver raised {io['raise']}"
+    for k, (st, out) in enumerate(zip(h["seq"], io["steps"])):
+        msg, _ = history._judge(ctx, _RAW[h["base"]], st["inp"], out)
+        if msg:
+            return f"history step {k} ({' -> '.join(['fresh'] * (k + 1))}): {msg}"
+    return None
+
+
+OPS["stub_history"] = Op("stub_history", _impl_stub_history, holds=_holds_history(_holds_stub_history, "stub_history"),
+                         compare=lambda inp, io, mo: None, determined=True, mode="exact", no_model=True,
+                         nontrivial=lambda inp, out: isinstance(out, dict) and "steps" in out)
+OPS["match_history"] = history.history_op("match_history", _MATCH_RAW, _h_build, _h_call, _h_canon,
+                                          snapshot=_h_snapshot, modify=_h_modify, poison=_h_poison)
+OPS["match_history"].holds = _holds_history(OPS["match_history"].holds, "match_history")
+OPS["match_interleaved"] = Op("match_interleaved", _impl_interleaved,
+                              holds=_holds_history(_holds_interleaved, "match_interleaved"),
+                              compare=lambda inp, io, mo: None, determined=True, mode="exact", no_model=True,
+                              nontrivial=lambda inp, out: isinstance(out, dict) and "steps" in out)
 
 
 # ---------------------------------------------------------------- generators
@@ -585,6 +1357,158 @@ def _random_matrices(rng, count, nmax):
         yield _matrix_case(n, m, vals)
 
 
+# ---------------------------------------------------------------- follow-up generators (HISTORIES.md sections 2-4)
+def _near_geom(rng, ty=None):
+    """a geometry of the given type placed so that neighbours overlap or not depending on the buffers
+    (times around 1-2 s in quarter steps, frequencies around 1-2 kHz)"""
+    ty = ty or rng.choice(gen_geom.TYPES)
+    t = Fraction(rng.choice([4, 5, 5, 6, 7, 8]), 4)
+    f = Fraction(rng.choice([1000, 1000, 1100, 1500]))
+    q, h = Fraction(1, 4), Fraction(1, 2)
+    if ty == "TimeStamp":
+        c = t
+    elif ty == "TimeInterval":
+        c = [t, t + h]
+    elif ty == "Point":
+        c = [t, f]
+    elif ty == "MultiPoint":
+        c = [[t, f], [t + q, f + 200]]
+    elif ty == "LineString":
+        c = [[t, f], [t + h, f + 300]]
+    elif ty == "MultiLineString":
+        c = [[[t, f], [t + h, f]], [[t + 1, f + 500], [t + 1 + h, f + 500]]]
+    elif ty == "BoundingBox":
+        c = [t, f, t + h, f + 500]
+    elif ty == "Polygon":
+        c = [[[t, f], [t + 1, f], [t + h, f + 800], [t, f]]]
+    else:
+        c = [[[[t, f], [t + h, f], [t + q, f + 400], [t, f]]], [[[t + 1, f], [t + 1 + h, f], [t + 1 + q, f + 400], [t + 1, f]]]]
+    return {"type": ty, "coordinates": gen_geom._enc(c)}
+
+
+def _near_cases(rng, count, nmax=3, low_dim=0.6):
+    low = ["TimeStamp", "Point", "MultiPoint", "LineString", "MultiLineString"]
+    for _ in range(count):
+        n, m = rng.randint(1, nmax), rng.randint(1, nmax)
+        pick = lambda: _near_geom(rng, rng.choice(low) if rng.random() < low_dim else None)
+        pool = [pick() for _ in range(2)]
+        src = [rng.choice(pool) if rng.random() < 0.3 else pick() for _ in range(n)]
+        tgt = [rng.choice(pool) if rng.random() < 0.3 else pick() for _ in range(m)]
+        tb, fb = rng.choice(_BUFFER_CHOICES)
+        yield {"source": src, "target": tgt, "tb": tb, "fb": fb}
+
+
+def _type_pair_cases(rng):
+    """every ordered pair of geometry types x buffer settings that change the time buffer only, the frequency
+    buffer only, both, none (options x input classes; sibling branches of _prepare_geometry / the two branches of
+    compute_affinity)"""
+    settings = [("1/100", "100"), ("1/4", "100"), ("1/100", "500"), ("1/2", "1000"), ("1/8", "1/2")]
+    for a in gen_geom.TYPES:
+        for b in gen_geom.TYPES:
+            for tb, fb in settings:
+                yield {"source": [_near_geom(rng, a), _near_geom(rng, a)], "target": [_near_geom(rng, b), _near_geom(rng, b)],
+                       "tb": tb, "fb": fb}
+
+
+def _style_cases(rng, per_value):
+    """every value of every style dimension, the other dimensions random; the fixed cases are built so that
+    exchanging or dropping a buffer changes the answer"""
+    dims = {"call": CALL_STYLES, "num": NUM_STYLES, "cont": CONT_STYLES, "geom": GEOM_STYLES}
+    fixed = [
+        {"source": [_stamp(1), {"type": "Point", "coordinates": ["1", "1000"]}],
+         "target": [_stamp(Fraction(5, 4)), {"type": "Point", "coordinates": ["5/4", "1200"]}], "tb": "1/2", "fb": "500"},
+        {"source": [_stamp(1), {"type": "Point", "coordinates": ["1", "1000"]}],
+         "target": [_stamp(Fraction(129, 128)), {"type": "Point", "coordinates": ["129/128", "1050"]}], "tb": "1/100", "fb": "100"},
+        {"source": [_stamp(2), _box(1, 1000, 2, 2000)], "target": [_stamp(3), _interval(1, 3)], "tb": "1", "fb": "100"},
+        {"source": [{"type": "Point", "coordinates": ["2", "1000"]}], "target": [{"type": "Point", "coordinates": ["2", "1004"]}],
+         "tb": "1/100", "fb": "4"},
+    ]
+    for dim, values in dims.items():
+        for val in values:
+            for k in range(per_value):
+                base = fixed[k % len(fixed)] if k < len(fixed) else next(_near_cases(rng, 1))
+                st = {d: rng.choice(vs) for d, vs in dims.items()}
+                st[dim] = val
+                st["share"] = rng.random() < 0.3
+                yield {**base, "style": st}
+
+
+def _boundary_geometry_cases():
+    """tolerance-sized offsets around the one comparison the property pins (affinity > 0), at small and large
+    magnitudes; every point of the 10 ms lattice with the 10 ms default buffer"""
+    out = []
+    # tiny but positive intersections over unions: 1e-6 ... 1e-12 (all must be paired)
+    for L in (1.0, 1000.0, 86400.0):
+        for k in range(6, 13):
+            w = L * 10.0 ** (-k)
+            t = L / 2
+            if t + w > t:
+                out.append({"source": [_fi(t, t + w)], "target": [_fi(0.0, L)], "tb": "1/100", "fb": "100"})
+                out.append({"source": [_fi(0.0, L), _fi(L + 1, L + 2)], "target": [_fi(t, t + w)], "tb": "0", "fb": "0"})
+    out.append({"source": [_fb(10.0, 40000.0, 10.001, 40050.0)], "target": [_fb(0.0, 0.0, 300.0, 96000.0)], "tb": "1/100", "fb": "100"})
+    out.append({"source": [_fb(10.0, 40000.0, 10.001, 40050.0), _fb(20.0, 100.0, 20.0001, 100.5)],
+                "target": [_fb(0.0, 0.0, 300.0, 96000.0), _fb(0.0, 0.0, 300.0, 96000.0)], "tb": "1/100", "fb": "100"})
+    # touching / overlapping by eps / separated by eps, at magnitudes 1 and 1e6
+    for base, eps in ((0.0, 2.0 ** -40), (0.0, 1e-12), (0.0, 1e-9), (0.0, 1e-6), (1e6, 2.0 ** -20), (1e6, 1e-6), (1e6, 1e-9 * 1e6)):
+        for d in (0.0, eps, -eps):
+            a, b = _fi(base, base + 1), _fi(base + 1 - d, base + 2)
+            out.append({"source": [a], "target": [b], "tb": "1/100", "fb": "100"})
+            out.append({"source": [_fb(base, 0.0, base + 1, 1000.0)], "target": [_fb(base + 1 - d, 0.0, base + 2, 1000.0)],
+                        "tb": "1/100", "fb": "100"})
+    # the 10 ms lattice: stamps two steps apart touch (affinity 0 up to one rounding), one step apart overlap by a third
+    for off in (0, 1000):
+        for k in range(0, 131 if off == 0 else 41):
+            st = lambda j: {"type": "TimeStamp", "coordinates": rat((off * 100 + j) / 100)}
+            out.append({"source": [st(k)], "target": [st(k + 2), st(k + 1)], "fb": "100",
+                        **({"tb": "1/100", "style": {"call": "default"}} if k % 2 else {"tb": rat(0.01)})})
+    return out
+
+
+def _fi(s, e):
+    return {"type": "TimeInterval", "coordinates": [rat(float(s)), rat(float(e))]}
+
+
+def _fb(s, lo, e, hi):
+    return {"type": "BoundingBox", "coordinates": [rat(float(x)) for x in (s, lo, e, hi)]}
+
+
+def _boundary_matrix_cases(rng):
+    """alternatives that differ by 1e-6 ... 1e-12, tiny decimal entries, shapes across the thresholds where an
+    implementation could switch strategy (> 16 elements, > 256 cells, >= 1024 pairs / items)"""
+    for a in (0.5, 1e-3, 1.0 - 1e-6):
+        for d in (1e-6, 1e-9, 1e-12):
+            other = a + d if a + d <= 1.0 else a - d
+            lo, hi = rat(min(a, other)), rat(max(a, other))
+            yield {"n": 2, "m": 2, "matrix": [[lo, hi], [hi, lo]]}
+            yield {"n": 2, "m": 2, "matrix": [[hi, lo], [lo, hi]]}
+            yield {"n": 2, "m": 3, "matrix": [[lo, hi, lo], [hi, hi, lo]]}
+            yield {"n": 3, "m": 3, "matrix": [[hi, lo, "0"], [lo, hi, lo], ["0", lo, hi]]}
+    tiny = ["0"] + [rat(10.0 ** -k) for k in (6, 8, 9, 10, 12)]
+    for vals in itertools.product(tiny, repeat=4):
+        if rng.random() < 0.25:
+            yield _matrix_case(2, 2, list(vals))
+    for v in tiny[1:]:
+        yield _matrix_case(1, 1, [v])
+        yield _matrix_case(1, 2, ["0", v])
+        yield _matrix_case(2, 1, [v, "0"])
+    for n, m in ((17, 17), (16, 17), (33, 32), (3, 400), (2, 600), (1030, 1), (1, 1030), (257, 1), (5, 52)):
+        pool = rng.choice([["0", "0", "1/4", "1/2", "1"], ["0", "1"], None])
+        vals = [rng.choice(pool) if pool else rat(Fraction(rng.randint(0, 1024), 1024)) for _ in range(n * m)]
+        yield _matrix_case(n, m, vals)
+
+
+def _long_time_lists(rng, count):
+    """>= 1024 pairs of real geometries (time stamps and intervals: closed-form affinities)"""
+    for _ in range(count):
+        n, m = rng.choice([(35, 30), (33, 32), (18, 60)])
+        def g():
+            t0 = Fraction(rng.randint(0, 160), 4)
+            return _stamp(t0) if rng.random() < 0.5 else _interval(t0, t0 + Fraction(rng.randint(1, 8), 4))
+        src = [g() for _ in range(n)]
+        tgt = [g() for _ in range(m)]
+        yield {"source": src, "target": tgt, "tb": rng.choice(["1/4", "1/2", "1/100"]), "fb": "100"}
+
+
 # ---------------------------------------------------------------- the solver's answer as a parameter: generators
 def _contract_assignments(n, m):
     """every answer scipy's documented contract allows on an n x m matrix: min(n, m) pairs, rows ascending,
@@ -683,8 +1607,8 @@ def _sym_thunk(n, m, asg):
         import builtins
         src, tgt, ids_s, ids_t = _stub_geoms(n, m)
 
-        def aff(g1, g2, *a, **kw):
-            return Sym.var(names[ids_s[id(g1)]][ids_t[id(g2)]])
+        def aff(geometry1=None, geometry2=None, *a, **kw):
+            return Sym.var(names[ids_s[id(geometry1)]][ids_t[id(geometry2)]])
 
         solver = _solver_stub(n, m, asg)
 
@@ -841,6 +1765,127 @@ def _stage_lists(ctx):
     ctx.exhaustive["match"] = f"all source/target lists of length 0..2 over a pool of {ctx.budget(5, 6)} boxes/intervals"
 
 
+def _sig_literal(fn):
+    """`inspect.signature(fn)` as a Lean `List (Param Arg)`: names, kinds, defaults (numbers as the decimal the
+    source states; any other default as `.num 0`, it only has to exist)"""
+    import inspect
+    ps = []
+    for prm in inspect.signature(fn).parameters.values():
+        kind = ".positional" if prm.kind in (prm.POSITIONAL_ONLY, prm.POSITIONAL_OR_KEYWORD) else ".keywordOnly"
+        if prm.kind in (prm.VAR_POSITIONAL, prm.VAR_KEYWORD):
+            default = "some (.num 0)"
+        elif prm.default is prm.empty:
+            default = "none"
+        elif isinstance(prm.default, (int, float)) and not isinstance(prm.default, bool):
+            q = Fraction(str(prm.default))
+            if float(q) != float(prm.default):
+                q = Fraction(prm.default)
+            default = f"some (.num (({q.numerator} : Rat) / {q.denominator}))"
+        else:
+            default = "some (.num 0)"
+        ps.append(f'⟨"{prm.name}", {kind}, {default}⟩')
+    return "[" + ", ".join(ps) + "]"
+
+
+def _stage_signature(ctx):
+    """Tie 1: the signatures of the two public functions, re-extracted from the live objects, still serve every call
+    written against the documented one (same leading parameters, names, order, defaults; additions optional)"""
+    import soundevent.evaluation as E
+    for name, table in (("match_geometries", "matchSig"), ("compute_affinity", "affinitySig")):
+        fn = getattr(E, name, None)
+        if fn is None:
+            ctx.pre_failed.append(f"signature of {name}")
+            ctx.fail("obligation", f"signature of {name}", detail=f"soundevent.evaluation no longer exposes {name}")
+            continue
+        lit = _sig_literal(fn)
+        ctx.obligation(f"sig_{name}", "open SE SE.MatchCall in\n"
+                       f"theorem sig_{name} : compatible (V := Arg) {lit} {table} = true := by decide +kernel\n",
+                       {"op": "match"})
+
+
+def _stage_styles(ctx):
+    cases = list(_style_cases(ctx.rng, ctx.budget(4, 12)))
+    ctx.run_cases(OPS["match"], cases)
+    ctx.exhaustive["styles"] = ("every call style (keyword, positional in the documented order, partly positional, keywords "
+                                "reversed, buffers omitted), number style (float, int, numpy float64/float32/int64), container "
+                                "(list, tuple, other Sequence, numpy object array) and construction path of the geometries "
+                                f"(validate, constructor, dict, JSON, copies, tuples, ints, numpy scalars), {ctx.budget(4, 12)} cases each")
+
+
+def _stage_type_pairs(ctx):
+    ctx.run_cases(OPS["match"], _type_pair_cases(ctx.rng))
+    ctx.exhaustive["type pairs x buffers"] = ("all 81 ordered pairs of geometry types x 5 buffer settings (default, time only, "
+                                              "frequency only, both, both small), 2 x 2 lists")
+
+
+def _history_bases(ctx):
+    rng = ctx.rng
+    base = list(_near_cases(rng, ctx.budget(60, 500)))
+    base += [c for c in _grid_cases(rng, ctx.budget(25, 200), 3)]
+    base += [{"source": [_stamp(1), _stamp(4)], "target": [_stamp(Fraction(13, 10)), _stamp(Fraction(21, 5))], "tb": "1/100", "fb": "100"},
+             {"source": [{"type": "Point", "coordinates": ["1", "1000"]}], "target": [{"type": "Point", "coordinates": ["1", "1050"]}],
+              "tb": "1/100", "fb": "10"}]
+    return base
+
+
+def _stage_histories(ctx):
+    """consecutive calls in one process: the same geometries with other buffers (equal content, same or distinct
+    objects), buffers omitted after buffers given, geometry objects changed by assignment / model_copy and used again,
+    lists edited in place, results edited by the caller, results compared again after later calls, arguments
+    snapshotted around every call"""
+    base = _history_bases(ctx)
+    hs = history.sequences(ctx.rng, base, ctx.budget(110, 900), variants=_h_variants, reuse_hows=H_REUSE, poison=True,
+                           length=(2, 4))
+    for h in hs:
+        for st in h["seq"]:
+            ctx.tally("history:" + (st.get("reuse") or "fresh") + ("+poison" if st.get("poison") else ""))
+    ctx.run_cases(OPS["match_history"], hs)
+    inter = []
+    for _ in range(ctx.budget(50, 400)):
+        x = ctx.rng.choice(base)
+        ys = _h_variants(x, ctx.rng)
+        inter.append({"seq": [{"inp": x}] + [{"inp": ctx.rng.choice(ys) if ctx.rng.random() < 0.7 else ctx.rng.choice(base)}
+                                             for _ in range(ctx.rng.randint(1, 2))]})
+    ctx.run_cases(OPS["match_interleaved"], inter)
+
+
+def _stage_stub_histories(ctx):
+    """consecutive calls of the stubbed operations in one process: a matrix, another matrix of the same shape (other
+    entries, all zeros, all ones, reversed), the first again; the same matrix with another solver answer"""
+    rng = ctx.rng
+    hs = []
+    for x in _random_matrices(rng, ctx.budget(120, 1200), 4):
+        if x["n"] * x["m"] == 0:
+            continue
+        seq = [x]
+        for _ in range(rng.randint(1, 2)):
+            seq.append(rng.choice(_neighbours("match_matrix", x) + [next(_random_matrices(rng, 1, 4))]))
+            if rng.random() < 0.7:
+                seq.append(x)
+        hs.append({"base": "match_matrix", "seq": [{"inp": y} for y in seq]})
+    for x in _solver_cases_random(rng, ctx.budget(40, 400), 3):
+        n, m = x["n"], x["m"]
+        if n * m == 0:
+            continue
+        others = [dict(x, assigned=a) for a in itertools.islice(_contract_assignments(n, m), 6)]
+        hs.append({"base": "match_solver", "seq": [{"inp": y} for y in [x, rng.choice(others), x]]})
+    ctx.run_cases(OPS["stub_history"], hs)
+
+
+def _stage_boundaries(ctx):
+    ctx.run_cases(OPS["match"], _boundary_geometry_cases())
+    ctx.run_cases(OPS["match"], _long_time_lists(ctx.rng, ctx.budget(2, 8)))
+    ctx.exhaustive["boundaries"] = ("intervals / boxes with intersection over union 1e-6 ... 1e-12 at extents 1, 1000, 86400 s; touching, "
+                                    "overlapping and separated by 2^-40 ... 1e-6 at magnitudes 1 and 1e6; every point of the 10 ms "
+                                    "lattice 0 ... 1.3 s and 1000 ... 1000.4 s with the 10 ms buffer (two steps apart: touching)")
+
+
+def _stage_boundary_matrices(ctx):
+    ctx.run_cases(OPS["match_matrix"], _boundary_matrix_cases(ctx.rng))
+    ctx.exhaustive["matrix boundaries"] = ("alternatives differing by 1e-6, 1e-9, 1e-12; entries 1e-6 ... 1e-12; shapes 17x17, 16x17, "
+                                           "33x32, 3x400, 2x600, 1030x1, 1x1030, 257x1, 5x52 (optimum by certificate)")
+
+
 def _timed(ctx):
     """ctx.stage with the wall time of each stage recorded in the evidence notes"""
     import time
@@ -859,6 +1904,8 @@ def run(ctx):
     global _CTX
     _CTX = ctx
     _CACHE.clear()
+    del _DEFERRED[:]
+    _PROBE.update(n=0, explained=0, refined=0, confirmed=0, matrix_probes=0)
     nmax = ctx.budget(5, 7)
     stage = _timed(ctx)
     stage("certificate generator self-test", _cert_selftest, ctx)
@@ -870,12 +1917,21 @@ def run(ctx):
         stage("the solver's answer as a parameter (compute_affinity and linear_sum_assignment stubbed)",
                   _stage_solver, ctx)
         stage("symbolic affinities at fixed shapes", _stage_symbolic, ctx)
+        stage("matrix boundaries and size thresholds", _stage_boundary_matrices, ctx)
+        stage("histories of the stubbed operations", _stage_stub_histories, ctx)
+    stage("signatures of match_geometries / compute_affinity (Tie 1)", _stage_signature, ctx)
+    stage("construction and call styles", _stage_styles, ctx)
+    stage("type pairs x buffer settings", _stage_type_pairs, ctx)
+    stage("numeric boundaries on real geometries, long lists", _stage_boundaries, ctx)
+    stage("histories", _stage_histories, ctx)
     stage("exhaustive short lists of real geometries", _stage_lists, ctx)
     stage("tie-rich grid lists", lambda: ctx.run_cases(OPS["match"], _grid_cases(ctx.rng, ctx.budget(500, 5000), nmax)))
     stage("long grid lists (optimality by certificate)",
               lambda: ctx.run_cases(OPS["match"], _grid_cases(ctx.rng, ctx.budget(60, 400), ctx.budget(10, 16), nmin=4)))
     stage("free-mode lists", lambda: ctx.run_cases(OPS["match"], _free_cases(ctx.rng, ctx.budget(150, 2000), min(nmax, 5))))
-    stage("discharge", ctx.discharge, ["SoundeventModel.Matching"])
+    stage("discharge", ctx.discharge, ["SoundeventModel.Matching", "SoundeventModel.MatchCall"])
+    _flush_deferred(ctx)
+    _close_fresh()
 
 
 def search(ctx, failures):
@@ -889,3 +1945,6 @@ def search(ctx, failures):
     ctx.stage("search: short lists", lambda: ctx.run_cases(OPS["match"], _exhaustive_lists(_POOL, 2)))
     ctx.stage("search: grid lists", lambda: ctx.run_cases(OPS["match"], _grid_cases(ctx.rng, 2000, 5)))
     ctx.stage("search: long grid lists", lambda: ctx.run_cases(OPS["match"], _grid_cases(ctx.rng, 150, 12, nmin=3)))
+    ctx.stage("search: histories", _stage_histories, ctx)
+    _flush_deferred(ctx)
+    _close_fresh()
